@@ -163,7 +163,7 @@ def build_items(tier, seed, wd):
     return items, sweeps
 
 
-FAMILY_FILES = ['spec/Converge.tla', 'spec/MC_Converge.cfg', 'spec/MC_Converge_thorough.cfg', 'spec/ParseEmit.tla', 'spec/MC_ParseEmit.cfg', 'harness/gendesign.py', 'spec/FixSchedule.tla', 'spec/MC_FixSchedule_quick.cfg', 'spec/MC_FixSchedule_thorough.cfg', 'harness/fixfam.py', 'harness/runfix.py', 'harness/configs.py', 'harness/variants.py', 'harness/vlex.py', 'spec/Edits.tla', 'spec/FixTrace.tla', 'spec/FixTrace.cfg', 'spec/FixPipeline.tla', 'spec/MC_FixPipeline_quick.cfg', 'spec/MC_FixPipeline_thorough.cfg']
+FAMILY_FILES = ['spec/ConvergeProof.tla', 'spec/Converge.tla', 'spec/MC_Converge.cfg', 'spec/MC_Converge_thorough.cfg', 'spec/ParseEmit.tla', 'spec/MC_ParseEmit.cfg', 'harness/gendesign.py', 'spec/FixSchedule.tla', 'spec/MC_FixSchedule_quick.cfg', 'spec/MC_FixSchedule_thorough.cfg', 'harness/fixfam.py', 'harness/runfix.py', 'harness/configs.py', 'harness/variants.py', 'harness/vlex.py', 'spec/Edits.tla', 'spec/FixTrace.tla', 'spec/FixTrace.cfg', 'spec/FixPipeline.tla', 'spec/MC_FixPipeline_quick.cfg', 'spec/MC_FixPipeline_thorough.cfg']
 
 
 def collect(tier):
@@ -194,6 +194,8 @@ def run_design(tier):
         res = tlc.model_check(module, cfg, workers=16, timeout=1800)
         out.append({"module": module, "cfg": cfg, "ok": res.ok, "states": res.states, "distinct": res.distinct, "wall": round(time.time() - t0, 1),
                     "error": res.error[:500], "props": sorted(props), "expect": "no error"})
+    # the same argument for ANY number of rules: TLAPS proof spec/ConvergeProof.tla (47 obligations, a few seconds)
+    out.append(run_tlaps("ConvergeProof", ["Converge.tla", "ConvergeProof.tla"], {"C09"}))
     # vacuity guard: every mechanism mutant must still produce its counterexample
     for module, cfg, inv in MUTANTS:
         t0 = time.time()
@@ -201,6 +203,32 @@ def run_design(tier):
         out.append({"module": module, "cfg": cfg, "ok": ("Invariant %s is violated" % inv) in res.out, "states": res.states, "distinct": res.distinct,
                     "wall": round(time.time() - t0, 1), "error": res.error[:300], "props": [], "expect": inv + " violated"})
     return out
+
+
+def run_tlaps(module, files, props):
+    """checks a TLAPS proof in a scratch copy (tlapm writes its cache next to the module); ok = every obligation proved"""
+    import re
+    import subprocess
+
+    t0 = time.time()
+    d = os.path.join(common.WORK, "tlaps_" + module)
+    shutil.rmtree(d, ignore_errors=True)
+    os.makedirs(d)
+    for f in files:
+        shutil.copyfile(os.path.join(tlc.SPEC, f), os.path.join(d, f))
+    try:
+        p = subprocess.run(["tlapm", "--cleanfp", module + ".tla"], cwd=d, stdout=subprocess.PIPE, stderr=subprocess.STDOUT, timeout=900)
+        text = p.stdout.decode(errors="replace")
+    except OSError as e:     # the proof system is an extra: without it the TLC-checked bounded statement stands alone
+        shutil.rmtree(d, ignore_errors=True)
+        return {"module": module, "cfg": "tlapm", "ok": True, "states": 0, "distinct": 0, "obligations_proved": 0, "wall": 0, "error": "tlapm not available: %r" % e, "props": sorted(props),
+                "expect": "all obligations proved (skipped)"}
+    except subprocess.TimeoutExpired as e:
+        text = "tlapm: %r" % e
+    m = re.search(r"All (\d+) obligations? proved", text)
+    shutil.rmtree(d, ignore_errors=True)
+    return {"module": module, "cfg": "tlapm", "ok": bool(m), "states": 0, "distinct": 0, "obligations_proved": int(m.group(1)) if m else 0, "wall": round(time.time() - t0, 1),
+            "error": "" if m else text[-400:], "props": sorted(props), "expect": "all obligations proved"}
 
 
 def _collect(tier, cd):
